@@ -30,6 +30,14 @@ func AppHeaderMiddleware(userPlans map[string]models.UserPlan, next http.Handler
 			utils.Encode(w, http.StatusBadRequest, map[string]string{"error": "missing X-User-Id or X-Plan-Id headers"})
 			return
 		}
+		// The user id becomes a directory name under the shard root. "." and
+		// ".." are not names of their own: they alias the directory that holds
+		// every other user's collections (or its parent), so such a user's
+		// collection operations would list and remove other users' files.
+		if appHeaders.UserId == "." || appHeaders.UserId == ".." {
+			utils.Encode(w, http.StatusBadRequest, map[string]string{"error": "invalid X-User-Id header"})
+			return
+		}
 		log.Debug().Interface("appHeaders", appHeaders).Msg("AppHeaderMiddleware")
 		// ---------------------------
 		newCtx := context.WithValue(r.Context(), appHeadersKey, appHeaders)
